@@ -256,6 +256,22 @@ class Cache:
         ):
             return "window function in `filter`"
 
+        # WHERE is evaluated before the window functions of the same SELECT, so they
+        # would only see the rows that pass the filter.
+        if isinstance(node, verbs.Filter) and any(col.ftype() == Ftype.WINDOW for col in self.cols.values()):
+            return "`filter` after a window function"
+
+        # LIMIT is applied after the window functions of the same SELECT, so they
+        # would see the rows cut off by `slice_head`.
+        if (
+            isinstance(node, verbs.Mutate)
+            and self.limit is not None
+            and any(
+                isinstance(fn, ColFn) and fn.op.ftype in (Ftype.AGGREGATE, Ftype.WINDOW) for fn in node.iter_col_nodes()
+            )
+        ):
+            return "window function after `slice_head`"
+
         if isinstance(node, verbs.Summarize):
             if self.is_summarized:
                 return "nested summarize"
